@@ -123,6 +123,8 @@ impl<'tcx> Cx<'tcx> {
             .fi("col", lo.col.0 as i128 + 1)
             .f("exp", exp)
             .fi("cline", cslo.line as i128)
+            .fi("hline", sm.lookup_char_pos(sp.hi()).line as i128)
+            .fi("hcol", sm.lookup_char_pos(sp.hi()).col.0 as i128 + 1)
             .done()
     }
 
@@ -276,6 +278,7 @@ impl<'tcx> Cx<'tcx> {
             .fs("krate", krate)
             .fs("kind", kind)
             .fb("local", did.is_local())
+            .fb("exported", match did.as_local() { Some(l) => tcx.effective_visibilities(()).is_exported(l), None => true })
             .fb("opaque", !descend)
             .f("generics", J::Arr(gnames))
             .f("variants", J::Arr(variants))
@@ -325,6 +328,12 @@ impl<'tcx> Cx<'tcx> {
             .fs("name", tcx.opt_item_name(did).map(|s| s.to_string()).unwrap_or_default())
             .fb("local", did.is_local())
             .f("args", a);
+        if matches!(tcx.def_kind(did), DefKind::Fn | DefKind::AssocFn) {
+            let us = std::panic::catch_unwind(std::panic::AssertUnwindSafe(|| tcx.fn_sig(did).skip_binder().skip_binder().safety().is_unsafe()));
+            if let Ok(us) = us {
+                o = o.fb("unsafe", us);
+            }
+        }
         // container
         if let Some(assoc) = tcx.opt_associated_item(did) {
             let cont = assoc.container_id(tcx);
@@ -392,6 +401,18 @@ impl<'tcx> Cx<'tcx> {
                     base.fs("ck", "scalar").fi("bits", si.to_bits(size) as i128).fi("size", size.bytes() as i128).done()
                 }
                 mir::ConstValue::ZeroSized => base.fs("ck", "zst").done(),
+                mir::ConstValue::Scalar(mir::interpret::Scalar::Ptr(p, _)) => {
+                    let (prov, _off) = p.into_raw_parts();
+                    match tcx.global_alloc(prov.alloc_id()) {
+                        mir::interpret::GlobalAlloc::Static(sdid) => base
+                            .fs("ck", "static")
+                            .fs("did", self.path(sdid))
+                            .fb("mutable", tcx.is_mutable_static(sdid))
+                            .fb("local", sdid.is_local())
+                            .done(),
+                        _ => base.fs("ck", "other").fs("s", format!("{}", c)).done(),
+                    }
+                }
                 mir::ConstValue::Slice { .. } => {
                     let s = format!("{}", c);
                     base.fs("ck", "slice").fs("s", s).done()
